@@ -30,6 +30,7 @@ EXPECTED_NOT_UNDERSTOOD = {
     "seeded/C12-C/patch.diff": "step lookup rewritten with np.searchsorted over unsorted annotations: the evaluator has no model of searchsorted",
     "seeded/C07-E/patch.diff": "computation kernels swept unmerged with running >= 3: a different sweep algorithm; the rule only knows the two-merged-operand template",
     "seeded/C11-F/patch.diff": "cat/name encoded with two pd.factorize calls and an offset: ids no longer read from the table; pd.factorize is not interpreted",
+    "seeded/C03-L/patch.diff": "sort_events rewritten as a numpy time sort plus per-run comparison sorts: another sorting scheme; whether every run is covered is not decidable from the shape",
 }
 
 
